@@ -4,14 +4,22 @@ import Agd.Driver.Util
 Line-protocol driver for the C01 model.
 
 ```
-serve <transport> <wok> <hdrhex|-> <unpacked> <id> <qr> <opcode> <rd> <cd> <nAn> <nNs> <edns> <ka>
+serve <transport> <wok> <wirehex|-> <unpacked> <id> <qr> <opcode> <rd> <cd> <nAn> <nNs> <edns> <ka>
       <outcome…> q <nq> {<namehex> <qtype> <qclass>}
+  wirehex: the whole message as the client sent it; unpacked…: what `Unpack` made of the bytes the
+  transport hands it (the model decides itself whether the bytes get that far)
   outcome: silent | wrote <rcode> <n> | failed <ne> | wrotefailed <rcode> <n> <ne>
-  → <status> <hid|-> <k> {| id opcode rcode rd cd nq {namehex qtype qclass} nans ede} d<disposals>
+  → <status> <hid|-> <qparse> w<contract> <k> {| id opcode rcode rd cd nq {namehex qtype qclass} nans ede} d<disposals> f<fin>
+  qparse: - | ptr | bad | ok:<namehex>:<qtype>:<qclass>   (the model's own parse of the first question)
+conn <transport> <wok> {; <wirehex> <unpacked> … q <nq> {…}}      one TCP/DoT connection, frames in order
+  → <n> {/ <status> <k> {| resp}}
+udploop <swallowShort> <wok> {; crit | ; soft | ; <wirehex> <unpacked> … q <nq> {…}}
+  → <alive> <n> {/ <status> <k> {| resp}}
 accept <qr> <opcode> <nq> <nAn> <nNs>            → ignore|notimp|formerr|accept
-json <id> <nameBad> <namehex> <type> <qc> <cd> <do> <sde> <outcome…>
-  type/qc: - | <n> | bad ; cd/do/sde: - | 0 | 1 | bad
-  → <status> <k> {| status rd cd nq {namehex qtype} nans} d<disposals>
+json <ct> <id> <nameBad> <namehex> <type> <qc> <cd> <do> <sde> <outcome…>
+  type/qc: - | <n> | bad ; cd/do/sde: - | 0 | 1 | bad ; ct = 1: answer in wire format
+  → <status> <k> {| status rd cd nq {namehex qtype} nans} d<disposals>          (ct = 0)
+  → <status> <k> {| id opcode rcode rd cd nq {namehex qtype qclass} nans ede} d<disposals>   (ct = 1)
 quic <orig:0/1> <poolhex|-> <streamhex|->        → none | <payloadhex>
 ```
 -/
@@ -28,9 +36,6 @@ def hexBytes (s : String) : List Nat :=
     | a :: b :: r => (hexVal a * 16 + hexVal b) :: go r
     | _ => []
   if s == "-" then [] else go s.toList
-
-def hexDigit (n : Nat) : Char :=
-  if n < 10 then Char.ofNat ('0'.toNat + n) else Char.ofNat ('a'.toNat + n - 10)
 
 def toHex (bs : List Nat) : String :=
   if bs.isEmpty then "-" else String.ofList (bs.flatMap fun b => [hexDigit (b / 16 % 16), hexDigit (b % 16)])
@@ -85,36 +90,100 @@ def foreignResp (k : Nat) : Resp :=
   { id := 57005 + k, opcode := 0, rcode := 0, rd := true, cd := false,
     questions := [{ name := "concurrent", qtype := 1, qclass := 1 }], answers := [0], ede := none }
 
+/-- A parsed "message as unpacked + outcome" group:
+`<wirehex> <unp> <id> <qr> <op> <rd> <cd> <nan> <nns> <edns> <ka> <outcome…> q <nq> {…}`. -/
+structure Frame where
+  bytes : List Nat
+  um : Option Msg
+  o : Outcome
+
+def parseFrame : List String → Option Frame
+  | wire :: unp :: id :: qr :: op :: rd :: cd :: nan :: nns :: edns :: ka :: rest =>
+    let k := outcomeLen rest
+    match rest.drop k with
+    | "q" :: nq :: qtoks =>
+      let m : Msg := { id := nat! id, qr := bool! qr, opcode := nat! op, rd := bool! rd, cd := bool! cd,
+                       questions := parseQs (nat! nq) qtoks, nAn := nat! nan, nNs := nat! nns,
+                       edns := bool! edns, keepalive := bool! ka }
+      match parseOutcome m rest with
+      | none => none
+      | some (o, _) => some { bytes := hexBytes wire, um := if bool! unp then some m else none, o := o }
+    | _ => none
+  | _ => none
+
+/-- Splits a token list at every ";" (the first group is what precedes the first ";"). -/
+def splitSemi (ts : List String) : List (List String) :=
+  let r := ts.foldl (fun (acc : List (List String) × List String) t =>
+    if t == ";" then (acc.1 ++ [acc.2], []) else (acc.1, acc.2 ++ [t])) ([], [])
+  r.1 ++ [r.2]
+
+def showQParse (b : List Nat) : String :=
+  match parseHdr b with
+  | none => "-"
+  | some h =>
+    if b.length ≤ 12 || h.qd == 0 then "-"
+    else match parseQuestion (b.drop 12) with
+      | .ok q => s!"ok:{q.name}:{q.qtype}:{q.qclass}"
+      | .ptr => "ptr"
+      | .bad => "bad"
+
+def showSeesShort (s : Sees) : String :=
+  s!"/ {s.status} {s.msgs.length} " ++ " ".intercalate (s.msgs.map showResp)
+
 def step (s : Unit) : List String → Unit × String
-  | "serve" :: t :: wok :: hdr :: unp :: id :: qr :: op :: rd :: cd :: nan :: nns :: edns :: ka :: rest =>
+  | "serve" :: t :: wok :: rest =>
+    match parseTransport t, parseFrame rest with
+    | some tr, some f =>
+      let ubo := unpackInput tr [] f.bytes
+      let ub := ubo.getD []
+      let hid := match parseHdr ub with
+        | none => "-"
+        | some h => s!"{h.id}:{showB h.qr}:{h.opcode}:{showB h.rd}:{showB h.cd}:{h.qd}:{h.an}:{h.ns}"
+      -- what `Unpack` returned, if the bytes got that far
+      let um' := if ubo.isSome then f.um else none
+      let wa := match um' with | none => true | some m => wireAgreesB ub m
+      -- end to end from the bytes; the Disposer's pools are shared with concurrent requests
+      let sees := match um' with
+        | some m => serveMsgShared disposeKinds tr m f.o (bool! wok) foreignResp
+        | none => serveBytes tr [] f.bytes (fun _ => none) f.o (bool! wok)
+      (s, s!"{sees.status} {hid} {showQParse ub} w{showB wa} {sees.msgs.length} "
+          ++ " ".intercalate (sees.msgs.map showResp)
+          ++ s!" d{disposeCount disposeKinds tr um' f.o} f{showB sees.fin}")
+    | _, _ => (s, "bad-op")
+  | "conn" :: t :: wok :: rest =>
     match parseTransport t with
     | none => (s, "bad-op")
     | some tr =>
-      let k := outcomeLen rest
-      match rest.drop k with
-      | "q" :: nq :: qtoks =>
-        let m : Msg := { id := nat! id, qr := bool! qr, opcode := nat! op, rd := bool! rd, cd := bool! cd,
-                         questions := parseQs (nat! nq) qtoks, nAn := nat! nan, nNs := nat! nns,
-                         edns := bool! edns, keepalive := bool! ka }
-        match parseOutcome m rest with
-        | none => (s, "bad-op")
-        | some (o, _) =>
-          let hid := match parseHdr (hexBytes hdr) with
-            | none => "-"
-            | some h => s!"{h.id}:{showB h.qr}:{h.opcode}:{showB h.rd}:{showB h.cd}:{h.qd}:{h.an}:{h.ns}"
-          let um := if bool! unp then some m else none
-          -- what the client sees with the Disposer's pools shared with concurrent requests
-          let sees := match um with
-            | none => dropped tr
-            | some m => serveMsgShared disposeKinds tr m o (bool! wok) foreignResp
-          (s, showSees sees hid ++ s!" d{disposeCount disposeKinds tr um o}")
-      | _ => (s, "bad-op")
+      let groups := (splitSemi rest).drop 1
+      let frames := groups.filterMap parseFrame
+      if frames.length != groups.length then (s, "bad-op") else
+      let unpack : List Nat → Option Msg := fun b => (frames.find? (·.bytes == b)).bind (·.um)
+      let out := serveConn tr unpack (bool! wok) (frames.map fun f => (f.bytes, f.o))
+      (s, s!"{out.length} " ++ " ".intercalate (out.map showSeesShort))
+  | "udploop" :: sw :: wok :: rest =>
+    let groups := (splitSemi rest).drop 1
+    let items : List (Option (UdpRead × Option Frame)) := groups.map fun g =>
+      match g with
+      | ["crit"] => some (.critErr, none)
+      | ["soft"] => some (.softErr, none)
+      | g => (parseFrame g).map fun f => (.dgram f.bytes, some f)
+    if items.any (·.isNone) then (s, "bad-op") else
+    let its := items.filterMap id
+    let frames := its.filterMap (·.2)
+    let lookup : List Nat → Option Frame := fun b => frames.find? (fun f => f.bytes.take udpBufSize == b)
+    let unpack : List Nat → Option Msg := fun b => (lookup b).bind (·.um)
+    -- the handler's outcome is scripted per datagram: find it by the message's bytes
+    let out := its.foldl (fun (acc : List Sees × Bool) it =>
+      if !acc.2 then acc else
+      let r := udpLoop (bool! sw) unpack (fun _ => match it.2 with | some f => f.o | none => .silent) (bool! wok) [it.1]
+      (acc.1 ++ r.1, r.2)) ([], true)
+    (s, s!"{showB out.2} {out.1.length} " ++ " ".intercalate (out.1.map showSeesShort))
   | ["accept", qr, op, nq, nan, nns] =>
     let m : Msg := { id := 0, qr := bool! qr, opcode := nat! op, rd := false, cd := false,
                      questions := List.replicate (nat! nq) { name := "", qtype := 1, qclass := 1 },
                      nAn := nat! nan, nNs := nat! nns, edns := false, keepalive := false }
     (s, showAction (acceptMsg m))
-  | "json" :: id :: nameBad :: name :: qt :: qc :: cd :: d :: sde :: rest =>
+  | "json" :: ct :: id :: nameBad :: name :: qt :: qc :: cd :: d :: sde :: rest =>
     let j : JSONReq := { name := name, nameEmpty := bool! nameBad, qtype := numParam qt, qclass := numParam qc,
                          cd := boolParam cd, do_ := boolParam d, sde := boolParam sde }
     let m0 := (jsonToMsg j (nat! id)).getD
@@ -123,9 +192,15 @@ def step (s : Unit) : List String → Unit × String
     match parseOutcome m0 rest with
     | none => (s, "bad-op")
     | some (o, _) =>
-      let r := serveJSON j (nat! id) o
-      (s, s!"{r.1} {r.2.length} " ++ " ".intercalate (r.2.map showJV)
-          ++ s!" d{disposeCount disposeKinds .dohJSON (jsonToMsg j (nat! id)) o}")
+      let disp := s!" d{disposeCount disposeKinds .dohJSON (jsonToMsg j (nat! id)) o}"
+      if bool! ct then
+        let r := match jsonToMsg j (nat! id) with
+          | none => serveJSONWire j (nat! id) o
+          | some m => serveMsgShared disposeKinds .dohJSON m o true foreignResp
+        (s, s!"{r.status} {r.msgs.length} " ++ " ".intercalate (r.msgs.map showResp) ++ disp)
+      else
+        let r := serveJSON j (nat! id) o
+        (s, s!"{r.1} {r.2.length} " ++ " ".intercalate (r.2.map showJV) ++ disp)
   | ["quic", orig, pool, stream] =>
     let f := if bool! orig then quicPayloadOrig else quicPayload
     (s, match f (hexBytes pool) (hexBytes stream) with | none => "none" | some p => toHex p)
